@@ -84,7 +84,7 @@ func runC09(w *World, r *Report, tier string) {
 		switch a.Kind {
 		case "store":
 			cons := w.funcKey(a.Fn) + "#store:Inbound"
-			r.Check(a.Fn == fn && isIncrementOf(a.Instr, fInbound), "O2", cons, w.ipos(a.Instr), "the inbound counter is written outside the receive loop's increment", "increment in recv")
+			r.Check(w.ownerFn(a.Fn) == fn && isIncrementOf(a.Instr, fInbound), "O2", cons, w.ipos(a.Instr), "the inbound counter is written outside the receive loop's increment", "increment in recv")
 		case "addr":
 			// &s.SMState.Inbound — only as SMResume.H
 			cons := w.funcKey(a.Fn) + "#addr:Inbound"
@@ -116,14 +116,14 @@ func runC09(w *World, r *Report, tier string) {
 		case al != nil:
 			_, setsInbound := fields["Inbound"]
 			r.Check(!setsInbound, "O2", cons, w.ipos(a.Instr), "a new SM state is created with a preset inbound count", "fresh state literal without Inbound")
-		case isParamOf(a.Val, a.Fn) && w.funcKey(a.Fn) == "xmpp.NewSession":
+		case w.ownerKey(a.Fn) == "xmpp.NewSession" && isParamOf(a.Val, w.ownerFn(a.Fn)):
 			// initial state handed to a brand-new Session (c.Session == nil)
 			r.Ok("O2", cons, "initial state of a new Session object")
 		default:
 			r.Undecided("O2", cons, w.ipos(a.Instr), "session SM state overwritten with a value the engine cannot classify")
 		}
 		// no whole-state store may precede a successful resumption in Session.resume
-		if w.funcKey(a.Fn) == "xmpp.(*Session).resume" {
+		if w.ownerKey(a.Fn) == "xmpp.(*Session).resume" {
 			toTrue := reachable(after(a.Instr), func(in ssa.Instruction) bool {
 				ret, ok := in.(*ssa.Return)
 				if !ok || len(ret.Results) != 1 {
@@ -260,7 +260,8 @@ func runC09(w *World, r *Report, tier string) {
 			if len(cut) > 0 && !reachable(entryLoc(f), func(in ssa.Instruction) bool { return in == c.(ssa.Instruction) }, nil, cut) {
 				okDom = true
 			}
-			r.Check(isGo && okDom && (f.Name() == "Connect" || f.Name() == "Resume"), "O4", cons, w.ipos(c), "a receive loop is started somewhere other than right after a successful connect()", "started only on connect()==nil")
+			ownerName := w.ownerFn(f).Name()
+			r.Check(isGo && okDom && (ownerName == "Connect" || ownerName == "Resume"), "O4", cons, w.ipos(c), "a receive loop is started somewhere other than right after a successful connect()", "started only on connect()==nil")
 		}
 	}
 	if nStart == 0 {
